@@ -1,7 +1,7 @@
 ----------------------------- MODULE SchemaRand -----------------------------
 (* Seeded sampling (TLC RandomElement, -seed) of schemas larger than the
    enumerated shapes, for the code -> model direction of C17 and C18.
-   Names: every node has a position (a unique string of a..e letters); its name
+   Names: every node has a position (a unique string, see Suf); its name
    is the position string, except that - wherever YANG allows two nodes to share
    a name - it is sometimes the name of its parent: the first child of a
    container, list or case may be named like that parent, the first case of a
@@ -18,7 +18,15 @@
    are frequent - levels where a nested mandatory node is the only one.        *)
 EXTENDS SchemaNodes, TLC
 
-Dig(i) == CASE i = 1 -> "a" [] i = 2 -> "b" [] i = 3 -> "c" [] i = 4 -> "d" [] OTHER -> "e"
+\* Node names are part of the input space.  A position is a string of suffixes, one per level, each
+\* ending in "q" (and holding no other q, so positions are unique); the suffixes of the children of one
+\* parent come from one of four families (v): letters; digit runs whose natural and byte order differ
+\* (2 10 9 100 1); the same behind - _ . ; names that differ only in case or are prefixes of each other.
+Suf(v, i) ==
+  CASE v = 1 -> (CASE i = 1 -> "aq" [] i = 2 -> "bq" [] i = 3 -> "cq" [] i = 4 -> "dq" [] OTHER -> "eq")
+    [] v = 2 -> (CASE i = 1 -> "2q" [] i = 2 -> "10q" [] i = 3 -> "9q" [] i = 4 -> "100q" [] OTHER -> "1q")
+    [] v = 3 -> (CASE i = 1 -> "-2q" [] i = 2 -> "-10q" [] i = 3 -> "_2q" [] i = 4 -> ".2q" [] OTHER -> "_10q")
+    [] OTHER -> (CASE i = 1 -> "aq" [] i = 2 -> "Aq" [] i = 3 -> "abq" [] i = 4 -> "aBq" [] OTHER -> "abcq")
 CaseKidsR(c) == IF c.kind = "case" THEN c.kids ELSE <<c>>
 
 \* a mandatory node in the sense of RFC 6020 section 3.1, anywhere below kids
@@ -64,36 +72,40 @@ RandUniq(kids, ul) ==
 \*  lazily, drawing again at every use)
 \* RandNode(nm, pos, d, mode): a node named nm at position pos
 \* RandKids(parent, pos, d, n, mode): n children of the node named parent at position pos
-RECURSIVE RandNode(_, _, _, _), RandKids(_, _, _, _, _), RandCases(_, _, _, _, _)
-RandKids(parent, pos, d, n, mode) ==
+RECURSIVE RandNode(_, _, _, _), RandKids(_, _, _, _, _, _), RandCases(_, _, _, _, _, _)
+\* v: the name family of these siblings
+RandKids(parent, pos, d, n, mode, v) ==
   IF n = 0 THEN << >>
   ELSE LET share == RandomElement(1..3)
-           nm    == IF n = 1 /\ parent # "" /\ share = 1 THEN parent ELSE pos \o Dig(n)
-       IN RandKids(parent, pos, d, n - 1, mode) \o <<RandNode(nm, pos \o Dig(n), d, mode)>>
-RandCases(choice, pos, d, n, mode) ==
+           nm    == IF n = 1 /\ parent # "" /\ share = 1 THEN parent ELSE pos \o Suf(v, n)
+       IN RandKids(parent, pos, d, n - 1, mode, v) \o <<RandNode(nm, pos \o Suf(v, n), d, mode)>>
+RandCases(choice, pos, d, n, mode, v) ==
   IF n = 0 THEN << >>
   ELSE LET m     == RandomElement(1..2)
            share == RandomElement(1..3)
            short == RandomElement(1..4)
-           cn    == IF n = 1 /\ share = 1 THEN choice ELSE pos \o Dig(n) \o "x"
-       IN RandCases(choice, pos, d, n - 1, mode) \o
-          <<IF short = 1 THEN RandNode(cn, pos \o Dig(n), 0, mode)          \* short-hand case: a leaf / leaf-list
-            ELSE Case(cn, RandKids(cn, pos \o Dig(n), d, m, mode))>>
+           vk    == RandomElement(1..4)
+           cn    == IF n = 1 /\ share = 1 THEN choice ELSE pos \o Suf(v, n) \o "xq"
+       IN RandCases(choice, pos, d, n - 1, mode, v) \o
+          <<IF short = 1 THEN RandNode(cn, pos \o Suf(v, n), 0, mode)          \* short-hand case: a leaf / leaf-list
+            ELSE Case(cn, RandKids(cn, pos \o Suf(v, n), d, m, mode, vk))>>
 RandNode(nm, pos, d, mode) ==
   LET k0 == RandomElement(1..10)
       kc == RandomElement(1..2)
       k  == IF mode = "sparse" /\ kc = 1 /\ k0 \in 4..7 THEN 8 ELSE k0 IN      \* sparse: more choices
   IF d = 0 \/ k <= 3 THEN (IF k = 10 \/ k = 3 THEN RandLL(nm, mode) ELSE RandLeaf(nm, mode))
   ELSE IF k <= 5 THEN
-       LET nk   == RandomElement(0..3)
-           kids == RandKids(nm, pos, d - 1, nk, mode)
+       LET nk   == RandomElement(0..4)
+           vk   == RandomElement(1..4)
+           kids == RandKids(nm, pos, d - 1, nk, mode, vk)
            pr   == RandomElement(1..2) IN
        IF pr = 1 \/ mode = "sparse" THEN PCont(nm, kids) ELSE Cont(nm, kids)
   ELSE IF k <= 7 THEN
        LET kt   == RandomElement({"string", "int8", "tstring"})
-           nk   == RandomElement(0..3)
-           key  == pos \o "k"
-           kids == <<Leaf(key, kt)>> \o RandKids(nm, pos, d - 1, nk, mode)
+           nk   == RandomElement(0..4)
+           vk   == RandomElement(1..4)
+           key  == pos \o "kq"
+           kids == <<Leaf(key, kt)>> \o RandKids(nm, pos, d - 1, nk, mode, vk)
            ul   == {i \in 2..Len(kids) : kids[i].kind = "leaf" /\ kids[i].def = "" /\ ~IsEmptyType(kids[i].typ)}
            mm   == RandomElement({<<0, 0>>, <<0, 0>>, <<1, 0>>, <<0, 2>>, <<1, 2>>})
            uq   == RandUniq(kids, ul)
@@ -101,12 +113,14 @@ RandNode(nm, pos, d, mode) ==
        IN IF mode = "path" THEN List(nm, key, kids)
           ELSE ListX(nm, key, IF mode = "sparse" /\ rare # 1 THEN 0 ELSE mm[1], mm[2], uq, kids)
   ELSE LET nc == RandomElement(1..3)
-           cs == RandCases(nm, pos, d - 1, nc, mode)
+           vk == RandomElement(1..4)
+           cs == RandCases(nm, pos, d - 1, nc, mode, vk)
            r  == RandomElement(1..3) IN
        IF mode = "path" THEN Choice(nm, cs)
        ELSE IF r = 1 /\ ~AnyMandatory(CaseKidsR(cs[1])) THEN ChoiceD(nm, cs[1].name, cs)
        ELSE IF r = 2 \/ (r = 3 /\ mode = "sparse") THEN ChoiceM(nm, cs)
        ELSE Choice(nm, cs)
 
-RandSchema(d, mode) == LET n == RandomElement(2..4) IN RandKids("", "", d, n, mode)
+\* (top-level names start with "n": a YANG identifier starts with a letter or "_")
+RandSchema(d, mode) == LET n == RandomElement(2..4) v == RandomElement(1..4) IN RandKids("", "n", d, n, mode, v)
 =============================================================================
